@@ -24,6 +24,7 @@ META = {
     "note": "trusted: CPython, vf/hbfs.py canonicaliser, vf/subjref.py (reference model, scripted observers), Observable.subscribe's "
     "AutoDetachObserver wrapping (every observer is subscribed through the public subscribe())",
 }
+META["text"] += "; thread part: subscribe() and dispose() racing the emitting thread, judged against the sequential placements on the same class; no exception escapes"
 RULE = (
     "one BFS per configuration (which of the 3 observers is scripted and how; error object plain or falsy); events = sub(i), unsub(i), "
     "next(a), next(b), error, complete, dispose, subbare (after dispose); a case = one transition (history replayed from scratch on fresh "
